@@ -11,6 +11,11 @@ ENGINES = [
 NOT_YET = {}
 TB = "Trusted: Lean kernel; axioms ⊆ {propext, Quot.sound, Classical.choice}; the translator; the harness + canonicalisation; "
 META = {
+    "C14": {
+        "text": "hex_spec: for every byte string, every precision (or none) and both cases, generic_hex prints exactly the first min(p, 2N) characters of the two-digits-per-byte string, on all three strategies (whole-array table fallback, 2N stack buffer, chunk loop through a reused buffer with a running digit budget - largeLoop_spec by induction on the chunk list, so stale digits are never printed and no slice leaves the buffer); proved for the thresholds the source currently has under the regenerated side conditions 0 < chunk and 2*chunk <= buffer, so changing 1024 to 512 is not an alarm. nibble_table (all 256 byte values x both cases, decide +kernel), input_within (the unreachable_unchecked guard is unreachable), hex_format_spec, feature_independent. Arithmetic, thresholds and alphabets are regenerated from src/hex.rs. Correspondence: the real Display output, faster-hex off and on.",
+        "design_ref": "§5 C14", "note": TB + "modelled not verified: core::fmt; faster-hex meets the encode contract (checked by running with the feature).",
+        "technique": "Lean 4 induction over chunks + finite nibble table (decide +kernel) on regenerated arithmetic + formatted-output correspondence (two feature builds)",
+    },
     "C03": {
         "text": "history_ledger: for every finite sequence of the 33 pool operations (construction, iterator next/next_back/nth/nth_back/clone/drop/count/last/fold/rfold, map/zip/fold/clone, append/prepend/pop/split/concat/remove/swap_remove incl. the out-of-range panic, flatten/unflatten, conversions, drops), chained so outputs feed later operations, every element created so far is in exactly one place: a live array, a live iterator range, the caller's hands or the drop log (induction over the operation list from one step lemma per operation, each resting on the regenerated models of C04/C05/C06/C08/C09). history_final: once everything is out of scope the drop log is a permutation of all created elements (no leak, no double drop); no_use_after_drop; held_live. Correspondence: random operation chains on a pool of real arrays/iterators, full state comparison and an exactly-once drop oracle; sample replayed under Miri in the thorough tier.",
         "design_ref": "§5 C03",
